@@ -189,7 +189,7 @@ func emitCliRespX(o *Out, r *RNG, hrefs int, status string, stats [][2]string, n
 				e = itoa(he.Code)
 				if withErr || withDesc {
 					var de *internal.Error
-					if errors.As(err, &de) && len(de.Raw) == 1 {
+					if errors.As(err, &de) && len(de.Raw) >= 1 { // (the independent writer may add an unknown extension element next to the condition)
 						e += ":dav"
 					} else if he.Err != nil {
 						e += ":text"
